@@ -33,6 +33,7 @@ Calls ==
                       ELSE <<NCell(One), NCell(Half), NCell(Half), NCell(One)>>] : yv \in BOOLEAN }
     \cup { [op |-> "calib", hasvar |-> FALSE, cells |-> <<XCell, NCell(One), NCell(Half)>>] }
     \cup { [op |-> "copy"] }
+    \cup { [op |-> "rename", name |-> <<111>>] }
 
 Init == calls = <<>>
 Call(c) == /\ Len(calls) < MaxCalls
@@ -43,6 +44,10 @@ Spec == Init /\ [][Next]_vars
 -----------------------------------------------------------------------------
 Name == <<110>>
 Expected == SaveDoc(Name, calls)
+
+(* the block carries the name given last (constructor or name setter) *)
+LastName == LET rn == SelectSeq(calls, LAMBDA c : c.op = "rename") IN IF rn = <<>> THEN Name ELSE rn[Len(rn)].name
+NameIsLastGiven == Expected[1].name = LastName
 
 (* a concrete document with the supplied content: ids i<k>, dates "x", missing ''       *)
 Concrete(cell) ==
